@@ -72,6 +72,10 @@ claim('C19',
       'The fault point is a solver variable: the index of the failing read() (text, UTF-8 and UTF-16 streams, 1- and 7-unit reads, including the reads used for encoding detection), of the failing write() or flush(), or of the failing invocation of a user constructor / representer, together with the kind of exception (9 kinds, among them classes the library itself catches or raises: UnicodeDecodeError, UnicodeEncodeError, YAMLError, ReaderError, AttributeError, KeyError). Checked on every path: the very same exception object reaches the caller; what was written before the fault is a prefix of the fault-free output; a following reference load and dump give the reference result; the deep snapshot of the package\'s global state is unchanged.',
       'Py leg only. StopIteration is excluded as an injected exception (PEP 479 turns it into RuntimeError inside any generator: a language rule, not library behaviour).')
 
+claim('C17',
+      'Object graphs are assembled from solver variables: each of 2 (3) slots takes one of 16 reduction shapes (instance dict, __slots__, __slots__+__dict__, __getstate__/__setstate__, __getnewargs__, __reduce__ with and without arguments, list and dict subclasses with attributes, list, dict, tuple, namedtuple, OrderedDict, set, a leaf table with enum members, complex numbers, classes, functions, modules) and its two child pointers may designate any slot, itself included, or a leaf - shapes nested in each other, sharing and cycles. Every graph goes through the real yaml.dump and yaml.unsafe_load (text level) and is compared, by type-strict bisimulation preserving identity classes, with what pickle protocol 2 rebuilds; a ConstructorError is accepted only for cycles that pass through something other than lists, dicts and plain instance dictionaries; yaml.full_load must accept exactly the tuple / complex / name documents. Every cell closes its path tree in the quick tier.',
+      'Py leg only. pickle is C: it runs on the concrete graph the solver variables selected (the oracle is validated on every replay). Float/complex text formatting is outside. Known finding K6 (a self-containing list/dict/instance below deeply constructed arguments or state is rejected).')
+
 NA = {
  'C06': 'every comparison is between two artefacts of libyaml (a compiled system .so behind a Cython binding that cannot be rebuilt offline); symbolic values are realised at the extension boundary, so no solver variable survives into the code under comparison',
  'C20': 'asymptotic growth over input sizes: bounded symbolic execution cannot observe doubling and an unbounded cost argument is proof-assistant work; the anchored look-ahead mechanisms are decided as one-step invariants under C09/C18',
